@@ -552,8 +552,9 @@ fn c17_day_series(lo: i64, hi: i64, out: &mut Out) {
         }
       }
       prev = Some((n, mp, duty, mansion));
-      // hours of the 1st and 15th of each month
-      if d == 1 || d == 15 {
+      // all 24 hours of two days of each month (seed-rotated; the 1st and 15th for seed 0)
+      let rot = crate::ROT.load(std::sync::atomic::Ordering::Relaxed) as i64;
+      if !reform(yy) && (d == 1 + (rot % 13) || d == 15 + (rot % 13)) {   // reform years: day-level keys only (stable known findings)
         for h in 0..24usize {
           let t = SolarTime::from_ymd_hms(yy as isize, m as usize, d as usize, h, 30, 0);
           let hb = ((h as i64 + 1) / 2) % 12;
